@@ -18,11 +18,17 @@ def P(qr, qw, tr, tw, **kw):
 PLAN = {
     "C01": P(6000, 75, 200000, 900),
     "C02": P(5000, 75, 150000, 900),
+    "C06": P(1500, 100, 40000, 1200, chunk=150),
     "C04": P(1500, 100, 40000, 1200, chunk=150),
     "C03": P(2000, 90, 60000, 900),
 }
 
 LEVELS = {
+    "C06": {"level": "fault_enumeration", "rule": RULE + "; crash points are store writes of the target operation, each tried with the crash before and after the write lands",
+            "text": "crash-point fault injection: inside histories of 0..3 committed bundles and labels, a target upload / label set / diamond commit is killed at a tape-chosen store write (before or after it lands), optionally next to an unharmed concurrent uploader; a fresh observer then lists, resolves latest, lists labels and downloads every visible bundle, and a fresh client retries. The enumerated scenario walks every write of one small upload x {before, after}. Per-event invariant: nothing under bundles/{repo}/{id}/ is written once its bundle.yaml exists",
+            "note": "a crashed client's later calls fail with no effect (DESIGN §2); only what landed in simstore survives; trusts simstore",
+            "components": {"real": ["pkg/core upload/list/latest/labels/download/diamond commit", "pkg/cafs", "pkg/storage/localfs"], "stub": STUB},
+            "assumptions": ["histories of at most 3 prior bundles", "one crash per run"]},
     "C04": {"level": "exploration", "rule": RULE,
             "text": "seeded exploration of trees (0..2500 files, hostile names, nested dirs, sizes 0..3 leaves, duplicated contents, generated-path decoys and look-alikes) x upload modes (whole tree / explicit key lists with missing keys and skip-missing) x leaf sizes x upload/download/file-list concurrency, with the interleaving of the <=20 parallel file uploads, their leaf flushes and a concurrent unrelated uploader chosen by the tape; oracle: entries one-to-one with the files (size, BLAKE2b tree key), full / filtered / single-file download byte-identical, only .datamon metadata besides",
             "note": "local disks are afero MemMapFs behind localfs (pass-through, not scheduled) in this scenario; trusts simstore",
